@@ -978,4 +978,60 @@ EXTRA = [
       "fwd = query.dimensions_for_params(self.fwd_req_params)\n        req.params.update(fwd)", 'filtered dict bound to a local first'),
     M('M-C17e-filter-inverted', 'mapproxy/layer.py', "return dict((k, v) for k, v in self.dimensions.items() if k.lower() in params)",
       "return dict((k, v) for k, v in self.dimensions.items() if k.lower() not in params)", 'C17.e'),
+    # ---------------------------------------------------------------- C14
+    M('M-C14a-fastpath-any-count', 'mapproxy/image/merge.py', "        if len(self.layers) == 1:\n            layer_img, layer_coverage = self.layers[0]",
+      "        if len(self.layers) >= 1:\n            layer_img, layer_coverage = self.layers[0]", 'C14.a'),
+    M('M-C14a-fastpath-ignores-opacity-of-output', 'mapproxy/image/merge.py', "if (((layer_opts and not layer_opts.transparent) or image_opts.transparent)",
+      "if (((layer_opts and not layer_opts.transparent) or not image_opts.transparent)", 'C14.a'),
+    E('E-C14a-nested-ifs', 'mapproxy/image/merge.py', """            if (((layer_opts and not layer_opts.transparent) or image_opts.transparent)
+                and (not size or size == layer_img.size)
+                and (not layer_coverage or not layer_coverage.clip)
+                    and not coverage):
+                # layer is opaque, no need to make transparent or add bgcolor
+                return layer_img""", """            if not coverage and (not layer_coverage or not layer_coverage.clip):
+                if ((layer_opts and not layer_opts.transparent) or image_opts.transparent) \\
+                        and (not size or size == layer_img.size):
+                    # layer is opaque, no need to make transparent or add bgcolor
+                    return layer_img""", 'nested ifs'),
+    M('M-C14b-opaque-transparent', 'mapproxy/source/wms.py', """        if self.image_opts.transparent:
+            return False
+
+        if self.opacity is not None""", """        if self.opacity is not None""", 'C14.b'),
+    M('M-C14b-opaque-outside-range', 'mapproxy/source/wms.py', """        if self.res_range and not self.res_range.contains(query.bbox, query.size,
+                                                          query.srs):
+            return False
+
+        if self.image_opts.transparent:""", """        if self.image_opts.transparent:""", 'C14.b'),
+    M('M-C14b-maplayer-opaque', 'mapproxy/layer.py', """        is indeed opaque. is_opaque should return False if in doubt.
+        \"\"\"
+        return False""", """        is indeed opaque. is_opaque should return False if in doubt.
+        \"\"\"
+        return True""", 'C14.b'),
+    E('E-C14b-reordered-tests', 'mapproxy/source/wms.py', """        if self.image_opts.transparent:
+            return False
+
+        if self.opacity is not None and (0.0 < self.opacity < 0.99):
+            return False
+""", """        if self.opacity is not None and (0.0 < self.opacity < 0.99):
+            return False
+
+        if self.image_opts.transparent:
+            return False
+""", 'independent tests reordered'),
+    M('M-C14c-compat-ignores-opacity', 'mapproxy/source/wms.py', """        if self.opacity is not None or other.opacity is not None:
+            return False
+
+        if self.supported_srs""", """        if self.supported_srs""", 'C14.c'),
+    M('M-C14c-compat-ignores-transparent-color', 'mapproxy/source/wms.py', """        if self.transparent_color != other.transparent_color:
+            return False
+""", "", 'C14.c'),
+    M('M-C14c-different-urls', 'mapproxy/client/wms.py', """        if self.request_template.url != other.request_template.url:
+            return None
+
+        new_req""", """        new_req""", 'C14.c'),
+    M('M-C14c-layer-order-reversed', 'mapproxy/client/wms.py', "new_req.params.layers = new_req.params.layers + other.request_template.params.layers",
+      "new_req.params.layers = other.request_template.params.layers + new_req.params.layers", 'C14.c'),
+    M('M-C14c-combine-non-adjacent', 'mapproxy/service/wms.py', "combined = combined_layers[-1].combined_layer(current_layer, query)",
+      "combined = combined_layers[0].combined_layer(current_layer, query)", 'C14.c'),
+    M('M-C14d-insert-front', 'mapproxy/image/merge.py', "            self.layers.append((img, coverage))", "            self.layers.insert(0, (img, coverage))", 'C14.d|C10.d'),
 ]
